@@ -8,6 +8,7 @@ from vf.sim import install
 from vf.sim.target import desc_sense, fixed_sense
 
 ID = "C07"
+OPT_QUICK_ALL = True      # every partition also in a child interpreter started with -O
 LEVEL = "model_checking"
 TECHNIQUE = "exhaustive enumeration of (status byte x sense x transport x call path x raw flag) at depth 1 and of all status/command histories up to a depth bound on real device objects over stand-in bindings, judged by a status->outcome reference model"
 RULE = ("depth 1: all 256 status bytes x {SG_IO, iSCSI} x {device.execute, SCSI.execute} x raw-sense {off,on} x (READ(10) x 5 sense buffers + 7 other commands incl. ATA PASS-THROUGH with/without CK_COND), and all 256 "
